@@ -47,6 +47,9 @@ CHECKS.update({
                 text='All 2x1 programs over 18 operations, 2x2 programs over the sequence-touching operations (quick) / 15 operations (thorough) and 3x1 programs (thorough): every schedule at critical-section granularity, no preemption bound needed; TSan race reports, deadlock, crash (TSan and ASan+UBSan builds) and linearizability of all results.'),
     'C18': dict(engine='enum', tech=ENUM_TECH, sec='4 C18', note='Trusted: the reference formatter; libstdc++ stream semantics; sanitizer build (a null dereference is a crash of the harness, reported as a violation).',
                 text='Type family (opaque structs of 1..40 bytes x 3 byte patterns, integers of four widths, bool, char, strings, raw/smart/function pointers incl. null, null-comparable classes, printer<T> types, pairs, tuples of 0-3, vector/list/deque/set/map nested to depth 3 with nulls and custom printers at every depth) x all 81 prior stream states for leaves (27 for structures); texts of a trace record and of reports with null arguments.'),
+    'C20': dict(engine='enum', tech=ENUM_TECH.replace('bounded exhaustive exploration of a term / input space against a reference model', 'bounded exhaustive exploration of operation sequences against a reference model: every interleaving of call / resume / destroy steps of up to three coroutines per expectation shape, plus'), sec='4 C20',
+                note='Trusted: the harness\'s own minimal coroutine types (eager/lazy task<int>, task<void>, generator), g++ 12 -std=c++20 with ASan+UBSan. Parameterless mock functions (the statement does not promise parameter lifetime); CO_THROW on return_void generators does not compile and is not a documented combination.',
+                text='Every expectation shape (0..4 CO_YIELD clauses x terminal {CO_RETURN value, CO_RETURN of a throwing expression, CO_THROW, void CO_RETURN} x clause order x 5 coroutine types) x 1..3 calls x every interleaving of the call / resume (/ destroy) steps of the resulting coroutines: per-coroutine event sequence, side effects at call time only, release reports; saturation, sequence order, forbidding and argument matching at call time.'),
     'C19': dict(engine='compmc', tech=COMP_TECH, sec='4 C19, appendix D', note='Trusted: the automaton as the reading of the documented diagnostics; g++ 12 and clang++ 14 with libstdc++. Clause sequences up to length 2 (quick) / 3 (thorough).',
                 text='All clause sequences up to the length bound over {WITH, SIDE_EFFECT, RETURN, THROW, TIMES(2), TIMES(0), TIMES(AT_MOST(2)), RT_TIMES, IN_SEQUENCE, CO_RETURN, CO_THROW, CO_YIELD} x signature kinds {void, value, reference, coroutine<int>, coroutine<void>} x {REQUIRE, ALLOW, FORBID}_CALL and NAMED_ forms x C++14/17/20 x g++/clang++; the 68 shipped negative programs with their own pass rules; parameter indices beyond the arity in every clause kind; legal clause orders; the macro namespace of every header under TROMPELOEIL_LONG_MACROS.'),
 })
@@ -58,13 +61,12 @@ PENDING = {
     'C12': 'check under construction in this build round (engine E2 schedmc, DESIGN.md section 4 C12); not claimed until it runs',
     'C18': 'check under construction in this build round (engine E3 enum, DESIGN.md section 4 C18); not claimed until it runs',
     'C19': 'check under construction in this build round (engine E4 compmc, DESIGN.md section 4 C19); not claimed until it runs',
-    'C20': 'check under construction in this build round (engine E1 in C++20 mode, DESIGN.md section 4 C20); not claimed until it runs',
 }
 
 ENGINES = {
     'histmc': dict(name='histmc', path='engines/histmc', kind_free_text='explicit-state model checker over a C++ reference model with conformance replay of every trace on the real headers (DESIGN.md 3.2)'),
     'schedmc': dict(name='schedmc', path='engines/schedmc', kind_free_text='stateless schedule explorer over hooked lock acquisitions (library customisation point), TSan per schedule, linearizability against the reference model (DESIGN.md 3.3)'),
-    'enum': dict(name='enum', path='engines/enum', kind_free_text='exhaustive term x value enumeration against denotational reference evaluators (DESIGN.md 3.4)'),
+    'enum': dict(name='enum', path='engines/enum (and engines/coro for C20)', kind_free_text='exhaustive term x value enumeration against denotational reference evaluators (DESIGN.md 3.4)'),
     'compmc': dict(name='compmc', path='engines/compmc', kind_free_text='clause typestate automaton explored through the compilers (DESIGN.md 3.5)'),
 }
 
